@@ -132,7 +132,7 @@ func tokenize(s string) ([]token, error) {
 		case isWordStart(c):
 			bt, bl := readBareword(s[i:])
 			tnr := tBare
-			if n, ok := keywords[strings.ToUpper(bt)]; ok {
+			if n, ok := keywords[ToUpper(bt)]; ok {
 				tnr = n
 			}
 			res = append(res, stoken(tnr, bt))
